@@ -129,9 +129,22 @@ func c03Run(cs *drv.Case, b []byte, skipTypes []byte, allocCap uint32) {
 	prS := ref.Parse(b, ref.STRUCT)
 	structOK := prS.MaxAsk <= 16*uint64(allocCap) || prS.MaxAsk <= 16*uint64(len(b))
 	calls := int64(0)
-	for where := 0; where < 2; where++ {
-		in := place(b, where)
-		pl := []string{"arena-end", "arena-start"}[where]
+	nPlace := 2
+	if cs.Idx%3 == 0 && len(b) > 0 {
+		nPlace = 3 // also as bytes nobody may write to
+	}
+	for where := 0; where < nPlace; where++ {
+		var in []byte
+		if where < 2 {
+			in = place(b, where)
+		} else {
+			var ok bool
+			if in, ok = placeReadOnly(b); !ok {
+				break
+			}
+			cs.C.Obs("decoder calls on write-protected inputs", int64(len(c03Entries)))
+		}
+		pl := []string{"arena-end", "arena-start", "write-protected"}[where]
 		for i := range c03Entries {
 			e := &c03Entries[i]
 			// entry points that allocate what the input declares: capped, unless the declared count is
@@ -184,7 +197,9 @@ func c03Call(cs *drv.Case, name string, orig, in []byte, placement string, f fun
 	}
 	if pv != nil {
 		kind := "decoder-panic"
-		if isFaultPanic(pv) {
+		if isWriteToInputPanic(pv) {
+			kind = "decoder-wrote-into-its-input"
+		} else if isFaultPanic(pv) {
 			kind = "decoder-read-outside-input"
 		}
 		d := detail()
@@ -457,6 +472,41 @@ func monC03(c *drv.Ctx) {
 		cs.Count(true, "large", shape, n)
 		cs.C.Obs("large-container cases", 1)
 	})
+
+	// (4b') a long-lived process: more than 2^31 and more than 2^32 calls of the string readers with the span
+	// allocator on (any call counter, round-robin index or offset kept in 32 bits has wrapped by then). Thorough
+	// tier only: about a minute of nothing but calls.
+	if c.Thorough() && (c.Flavour == "plain" || c.Flavour == "go126") {
+		c.Stage("call-counters-wrap", 2, true, func(cs *drv.Case) {
+			thrift.SetSpanCache(true)
+			defer thrift.SetSpanCache(false)
+			in := [][]byte{ref.EncString(nil, ""), ref.EncString(nil, "k"), ref.EncString(nil, "a-key-of-some-length")}[cs.R.Intn(3)]
+			want := string(in[4:])
+			total := uint64(1)<<31 + 1<<16
+			if cs.Idx == 1 {
+				total = uint64(1)<<32 + 1<<16
+			}
+			cs.Desc = M{"calls": total, "input_hex": hexOf(in)}
+			for i := uint64(0); i < total; i++ {
+				var s string
+				var n int
+				var err error
+				if i&1 == 0 {
+					s, n, err = thrift.Binary.ReadString(in)
+				} else {
+					var b []byte
+					b, n, err = thrift.Binary.ReadBinary(in)
+					s = string(b)
+				}
+				if err != nil || n != len(in) || s != want {
+					cs.Fail("decoder-result-after-many-calls", M{"entry": "Binary.ReadString/ReadBinary"}, M{"call": i, "err": errString(err), "n": n, "got": s})
+					return
+				}
+			}
+			cs.Count(true, "wrap", cs.Idx)
+			cs.C.Obs("calls made to pass 32-bit call counts", int64(total))
+		})
+	}
 
 	// (4c) the same entry points with the span allocator switched on (after it has been on, off and on again)
 	c.Stage("span-cache-on", c.Pick(4000, 100000), false, func(cs *drv.Case) {
